@@ -36,7 +36,7 @@ def main(argv):
     shutil.rmtree(build, ignore_errors=True)
     gendir = os.path.join(build, 'gen'); work = os.path.join(build, 'work')
     os.makedirs(gendir); os.makedirs(work)
-    inconclusive = []
+    inconclusive = []; static_violations = []
     # 1. slices, regenerated from the working tree
     units = {}; slice_recs = {}
     def emit(name, mod):
@@ -82,6 +82,20 @@ def main(argv):
             if r['status'] != 'ok':
                 inconclusive.append('cosim[%s]: %s' % (name, r['reason']))
                 print('INCONCLUSIVE: co-simulation of unit %s: %s' % (name, r['reason'][:500]))
+    # 3b. supporting static fact for C05: version-gate table (reported separately, never counted as an obligation)
+    static_facts = {}
+    if prop == 'C05':
+        from engine import gates
+        g = gates.check(REPO); static_facts['version_gates'] = g
+        for ch in g['changed']:
+            rp = os.path.join(VERIF, 'replays', 'C05.version_gate.%s.json' % re.sub(r'[^A-Za-z0-9_.-]', '_', ch['function'])[-80:])
+            os.makedirs(os.path.dirname(rp), exist_ok=True)
+            json.dump({'property': 'C05', 'obligation': 'static.version_gate_table', 'description': 'a bitstream-version gate of the pinned decoder was removed or altered', 'detail': ch,
+                       'native_replay': {'status': 'no-adapter', 'detail': 'static fact: no input; see DESIGN.md A.11'}}, open(rp, 'w'), indent=1)
+            print('VIOLATION property=C05 replay=%s obligation=static.version_gate_table [%s: frozen %s, now %s] no-failing-input-found' % (rp, ch['function'].split('::', 1)[1], ch['frozen'], ch['current']))
+            static_violations.append(ch)
+        for nf in g['not_found']:
+            inconclusive.append('version gate table: function %s not found' % nf['function']); print('INCONCLUSIVE: version gate table: %s not found' % nf['function'])
     # 4. aggregate
     filtered = []
     n_obl = n_ok = 0; violations = []; vac_fired = 0; bounded = []; per_job = []; samples = []
@@ -136,6 +150,7 @@ def main(argv):
         json.dump(rec, open(rp, 'w'), indent=1)
         tail = '' if nat.get('status') == 'reproduced' else ' no-failing-input-found'
         print('VIOLATION property=%s replay=%s obligation=%s [%s]%s' % (prop, rp, o['name'], o['desc'], tail))
+    vcount += len(static_violations)
     wall = time.time() - t0
     # 6. evidence
     assumptions = assumption_scan(units, slice_recs)
@@ -165,6 +180,7 @@ def main(argv):
               'functions_under_contract': [f for f in funcs if f['contract_enforced_in_this_run']],
               'functions_sliced_not_enforced_here': [f['c_name'] for f in funcs if not f['contract_enforced_in_this_run']],
               'cosim': cosim,
+              'static_facts': static_facts,
               'solver_seconds_total': round(sum(p.get('seconds') or 0 for p in per_job), 1),
           },
           'assumptions': assumptions, 'wall_s': round(wall, 1), 'violations': vcount}
